@@ -54,7 +54,7 @@ fn sweep(strings: Vec<Vec<u8>>) -> (HtpStats, Vec<Found>, u64) {
         .map(|s| {
             let mut st = HtpStats::default();
             let r = check_string(s, Some(&mut st));
-            (st, r.map(|w| found(format!("htp:{}", hex(&s[..s.len().min(8)])), w, json!({"kind":"string","hex":hex(s)}))))
+            (st, r.map(|w| found(format!("htp:{}", hex(&s[..s.len().min(8)])), w, if s.len() <= 8192 { json!({"kind":"string","hex":hex(s)}) } else { json!({"kind":"ladder","len":s.len(),"constant":s.iter().all(|&b| b == 0x5a)}) })))
         })
         .collect();
     let mut st = HtpStats::default();
@@ -162,6 +162,33 @@ pub fn run(tier: Tier) {
     }
     ctx.add_part(part);
 
+    // length ladder: every length up to 1100 (4200 thorough) and around powers of two up to 2^20, two contents
+    {
+        let top: usize = if tier.thorough() { 4200 } else { 1100 };
+        let mut lens: Vec<usize> = (0..=top).collect();
+        for k in [13usize, 14, 15, 16, 17, 18, 20] {
+            lens.extend([(1 << k) - 41, (1 << k) - 40, (1 << k) - 1, 1 << k, (1 << k) + 1]);
+        }
+        let mut strings = vec![];
+        for &l in &lens {
+            strings.push(vec![0x5au8; l]);
+            // position-dependent content: a byte-swapped or truncated absorb shows
+            strings.push((0..l).map(|i| (i as u32).wrapping_mul(2654435761).rotate_left(7) as u8 ^ (i >> 8) as u8).collect());
+        }
+        let mut part = Part::new("length_ladder", &format!("every length 0..={} and lengths around 2^13 .. 2^20 ({} lengths) x two contents (constant 5A, position-dependent), n = 512 and 1024", top, lens.len()));
+        let (st, f, n) = sweep(strings);
+        merge(&mut total, &st);
+        part.states = n;
+        part.transitions = 3 * n;
+        part.validated = 2 * n;
+        part.exhaustive = true;
+        part.outcome(format!("chunks={} rejected={}", st.chunks, st.rejected));
+        for x in f {
+            ctx.violation(x.key, x.what, x.case);
+        }
+        ctx.add_part(part);
+    }
+
     ctx.set(
         "threshold_hits",
         json!({"chunks": total.chunks, "rejected": total.rejected, "chunk==61444 (largest accepted)": total.at_61444,
@@ -175,11 +202,16 @@ pub fn run(tier: Tier) {
     let s = b"data1";
     ctx.sample(json!({"string": hex(s), "first 4 coefficients (impl)": fh::hash_to_point(s, 512)[..4].to_vec(), "first 4 (Algorithm 3)": hash_to_point(s, 512, None)[..4].to_vec()}));
     ctx.assume("reference = own Keccak-f[1600]/SHAKE-256 (validated against PQClean's fips202.c and python hashlib at setup) + Algorithm 3");
-    ctx.assume("messages longer than the enumerated ones are covered by the absorb-boundary lengths and by the chunk loop being independent of the message");
+    ctx.assume("messages longer than 2^20 bytes are covered by the absorb loop's block structure only");
     ctx.finish();
 }
 
 pub fn replay(case: &Value) -> Result<Option<String>, String> {
+    if case.get("kind").and_then(|k| k.as_str()) == Some("ladder") {
+        let l = case.get("len").and_then(|x| x.as_u64()).ok_or("len")? as usize;
+        let s: Vec<u8> = if case.get("constant").and_then(|x| x.as_bool()).unwrap_or(true) { vec![0x5au8; l] } else { (0..l).map(|i| (i as u32).wrapping_mul(2654435761).rotate_left(7) as u8 ^ (i >> 8) as u8).collect() };
+        return Ok(check_string(&s, None));
+    }
     let h = case.get("hex").and_then(|k| k.as_str()).ok_or("no hex")?;
     Ok(check_string(&unhex(h), None))
 }
